@@ -49,7 +49,7 @@ PATTERNS = ['*.h', '**/*.h', '*.hpp', 'sub/*.h', '**/*.hpp']
 HDR_TREE = ['x.h', 'y.h', 'v.hpp', 'sub/z.h', 'sub/z2.hpp', 'sub/deep/w.h',
             'other dir/s p.h', 'notes.txt', 'sub/readme.md', 'sub/deep/k.hpp']
 
-FEATURES = ['versioned-dep', 'versioned-explicit', 'static-chain', 'fwd-static',
+FEATURES = ['dual', 'versioned-dep', 'versioned-explicit', 'static-chain', 'fwd-static',
             'hdrdir-dir', 'man-gz', 'man-plain', 'data', 'pc', 'pc-auto',
             'dir-string', 'dir-path', 'deep-chain', 'subdir-names', 'built-files']
 # combinations the real code currently rejects at configure time (see the report);
@@ -140,11 +140,12 @@ def place(kind, suffix, dirspec):
     return dirspec[1], posixpath.join(dirspec[2], suffix)
 
 
-def lib_files(lib):
-    """build-dir-relative names of a library's files."""
+def lib_files(lib, half=None):
+    """build-dir-relative names of a library's files (half='static': the archive of a
+    dual-use library; otherwise its shared object)."""
     d, b = posixpath.split(lib['name'])
     pre = d + '/' if d else ''
-    if lib['type'] == 'static':
+    if lib['type'] == 'static' or half == 'static':
         return {'real': pre + 'lib' + b + '.a'}
     if lib['version']:
         v, so = lib['version']
@@ -182,7 +183,7 @@ class Project:
         out = []
         for l in self.node(ref)['libs']:
             rec = self.libs[l]
-            if rec['type'] == 'shared':
+            if rec['type'] in ('shared', 'dual'):      # users link the shared object
                 if l not in out:
                     out.append(l)
             else:
@@ -217,13 +218,20 @@ class Project:
         return all(self.libs[l]['type'] == 'static' and self.pure_static(l)
                    for l in self.libs[ref]['libs'])
 
+    def dual_ok(self, ref):
+        """a dual-use library all of whose dependencies are dual-use ones of that kind or
+        static libraries without shared dependencies: both halves have a defined closure"""
+        return all((self.libs[l]['type'] == 'dual' and self.dual_ok(l)) or
+                   (self.libs[l]['type'] == 'static' and self.pure_static(l))
+                   for l in self.libs[ref]['libs'])
+
     def value(self, ref):
         n = self.node(ref)
         return n['const'] + sum(self.value(l) for l in n['libs'])
 
     def has_install_deps(self, ref):
         n = self.node(ref)
-        if n['type'] == 'static':
+        if n['type'] in ('static', 'dual'):
             return bool(n['libs'])
         return bool(self.direct_shared(ref))
 
@@ -244,7 +252,10 @@ def gen_project(rng, force=()):
     const = 1
     for i in range(nlib):
         lid = names[i]
-        typ = rng.choice(['shared', 'shared', 'static'])
+        typ = rng.choice(['shared', 'shared', 'static', 'dual'] if 'dual' in force or
+                         rng.random() < 0.35 else ['shared', 'shared', 'static'])
+        if 'dual' in force and i in (0, 2):
+            typ = 'dual'
         if i == 0 and force & {'versioned-dep', 'versioned-explicit', 'deep-chain',
                                'fwd-static', 'dep-explicit-dir'}:
             typ = 'shared'
@@ -258,7 +269,13 @@ def gen_project(rng, force=()):
         cand_static = [l for l in prior if P.libs[l]['type'] == 'static']
         cand_shared = [l for l in prior if P.libs[l]['type'] == 'shared']
         deps = []
-        if typ == 'shared':
+        if typ == 'dual':
+            ok = [l for l in prior if (P.libs[l]['type'] == 'dual' and P.dual_ok(l)) or
+                  (P.libs[l]['type'] == 'static' and P.pure_static(l))]
+            for l in ok:
+                if rng.random() < 0.6 or ('dual' in force and i == 2):
+                    deps.append(l)
+        elif typ == 'shared':
             for l in prior:
                 if rng.random() < 0.45:
                     deps.append(l)
@@ -275,15 +292,15 @@ def gen_project(rng, force=()):
                and cand_shared and 'static-chain' not in force:
                 deps.append(rng.choice(cand_shared))
         version = None
-        if typ == 'shared' and (rng.random() < 0.35 or
+        if typ in ('shared', 'dual') and (rng.random() < 0.35 or
                                 (i == 0 and force & {'versioned-dep',
                                                      'versioned-explicit'})):
             version = list(rng.choice(VERSIONS))
         const += rng.randint(1, 5)
         P.libs[lid] = {'id': lid, 'name': sub() + lid, 'type': typ,
                        'version': version, 'libs': deps, 'const': const,
-                       'fn': (rng.choice(['shared_library', 'shared_library',
-                                          'library'])
+                       'fn': ('library' if typ == 'dual' else
+                              rng.choice(['shared_library', 'shared_library', 'library'])
                               if typ == 'shared' else 'static_library')}
 
     enames = list(EXE_NAMES)
@@ -367,6 +384,14 @@ def gen_project(rng, force=()):
         if rec['type'] == 'static' and not P.pure_static(l):
             continue      # shared deps of an installed static lib: not defined
         p = 0.3
+        if 'dual' in force:
+            # one dual-use library with dependencies is installed by name, its dependencies
+            # are not: they have to arrive as dependencies of its two halves
+            tgt = [x for x in libs_l if P.libs[x]['type'] == 'dual' and P.libs[x]['libs']]
+            if tgt and l == tgt[-1]:
+                p = 1
+            elif tgt and l in P.static_closure(tgt[-1]):
+                p = 0
         if rec['type'] == 'static' and 'static-chain' in force and l == libs_l[1]:
             p = 1
         if 'versioned-explicit' in force and l == libs_l[0]:
@@ -405,9 +430,9 @@ def gen_project(rng, force=()):
     implicit = set(pc_libs) | set(pc_incs)
     for r in explicit + pc_libs:
         n = P.node(r)
-        if n['type'] == 'static':
+        if n['type'] in ('static', 'dual'):
             implicit.update(P.static_closure(r))
-        else:
+        if n['type'] != 'static':
             implicit.update(P.runtime_closure(r))
 
     items = list(explicit)
@@ -494,6 +519,8 @@ def render(P):
             args.append('libs=[%s]' % ', '.join('l_' + d for d in l['libs']))
         if l['version']:
             args.append('version=%r, soversion=%r' % tuple(l['version']))
+        if l['type'] == 'dual':
+            args.append("kind='dual'")
         out.append('l_%s = %s(%s)' % (lid, l['fn'], ', '.join(args)))
         var[lid] = 'l_' + lid
     for eid, e in P.exes.items():
@@ -607,8 +634,13 @@ def model(P, gzip=True):
 
     placed = {}      # lib id -> [(root, reldir-of-runtime-file), ...] alternatives
 
-    def add_binary(ref, dirspec, origin, explicit):
+    def add_binary(ref, dirspec, origin, explicit, half=None):
         n = P.node(ref)
+        if n['type'] == 'dual' and half is None:
+            # a dual-use library that is installed by name: both halves
+            add_binary(ref, dirspec, origin, explicit, 'shared')
+            add_binary(ref, dirspec, origin, explicit, 'static')
+            return
         # A library the script installed explicitly with directory= which is also
         # a dependency of something installed plainly: the explicit location is
         # required; a second copy at the default location is tolerated.
@@ -618,8 +650,8 @@ def model(P, gzip=True):
             add(root, rel, type='file', kind='exe', origin=origin,
                 src=['bld', n['name']], item=ref)
             return
-        lf = lib_files(n)
-        kind = n['type']
+        lf = lib_files(n, half)
+        kind = n['type'] if n['type'] != 'dual' else half
         root, rel = place(kind, lf['real'], dirspec)
         add(root, rel, type='file', kind=kind, origin=origin,
             src=['bld', lf['real']], item=ref, optional=optional)
@@ -641,12 +673,13 @@ def model(P, gzip=True):
     def add_with_deps(ref, dirspec, origin):
         n = P.node(ref)
         add_binary(ref, dirspec, origin, True)
-        if n['type'] == 'static':
+        if n['type'] in ('static', 'dual'):
+            # whoever links the archive needs the archives it was written against
             for d in P.static_closure(ref):
-                add_binary(d, None, 'static-dep', False)
-        else:
+                add_binary(d, None, 'static-dep', False, 'static')
+        if n['type'] != 'static':
             for d in P.runtime_closure(ref):
-                add_binary(d, None, 'runtime-dep', False)
+                add_binary(d, None, 'runtime-dep', False, 'shared')
 
     byid = {}
     for coll in (P.hdrdirs, P.headers, P.mans, P.datas):
